@@ -1,6 +1,6 @@
 #!/usr/bin/env python3
-"""tools/closemap.py: closes properties.map under static calls - if a property lists F/* and F calls G (a library function
-with a contract), G/* is added. A change inside a callee is then checked whichever property it is attributed to.
+"""tools/closemap.py: closes properties.map under static calls and function-value mentions - if a property lists F/* and F
+calls or hands on G (a library function with a contract), G/* is added. A change inside a callee is then checked whichever property it is attributed to.
 Interface calls (Joe -> Replayer) are not static edges; those properties list the implementations explicitly."""
 import os, re, subprocess, sys
 V = os.path.dirname(os.path.dirname(os.path.abspath(__file__)))
@@ -33,9 +33,15 @@ for i, l in enumerate(lines):
     added = []
     while work:
         f = work.pop()
-        for g in sorted(edges.get(f, ())):
-            if g in have and g not in seen and "lemma" not in g:
-                seen.add(g); work.append(g); added.append(g)
+        # a function literal's calls are recorded under the function that contains it; a function without a contract
+        # (inlined at its call sites, like read) is walked through but not listed
+        callees = set(edges.get(f, ())) | (set(edges.get(f.split("$")[0], ())) if "$" in f else set())
+        for g in sorted(callees):
+            if g in seen or "lemma" in g:
+                continue
+            seen.add(g); work.append(g)
+            if g in have:
+                added.append(g)
     for g in added:
         pats.append(g + "/*")
     lines[i] = pid + ": " + ", ".join(pats)
